@@ -24,12 +24,17 @@ theorem resolveLocal_of_declaredInFunc (c : Chain) (n : Nat) (h : declaredInFunc
       simp only [declaredInFunc, hf, Option.isSome_none, Bool.false_or, Bool.and_eq_true] at h
       exact ih h.2
 
+/-- a closure variable is not declared in the current function (the pair `(true, true)` of the two
+atoms of the guard does not occur) -/
+theorem isClosureVar_of_declaredInFunc (c : Chain) (n : Nat) (h : declaredInFunc c n = true) :
+    isClosureVar c n = false := by
+  simp [isClosureVar, h]
+
 /-- a name with no local declaration around the use: whatever the guard, the emitter's callee is the
 lexical one (the package table's function, or nothing) -/
-theorem emitCallee_of_not_local (g : Bool → Bool) (ca : Bool) (c : Chain) (t : Table) (n : Nat)
-    (h : resolveLocal c n = none) : emitCallee g ca c t n = resolve c t n := by
+theorem emitCallee_of_not_local (g : Bool → Bool → Bool) (c : Chain) (t : Table) (n : Nat)
+    (h : resolveLocal c n = none) : emitCallee g c t n = resolve c t n := by
   unfold emitCallee
-  simp only
   split
   · cases hf : find t n with
     | none => rfl
@@ -38,9 +43,17 @@ theorem emitCallee_of_not_local (g : Bool → Bool) (ca : Bool) (c : Chain) (t :
 
 /-- a name declared in the current function: the local wins as soon as the guard refuses the direct
 call for locals -/
-theorem emitCallee_of_declaredInFunc (g : Bool → Bool) (hg : g true = false) (ca : Bool) (c : Chain)
-    (t : Table) (n : Nat) (h : declaredInFunc c n = true) : emitCallee g ca c t n = resolve c t n := by
+theorem emitCallee_of_declaredInFunc (g : Bool → Bool → Bool) (hg : g true false = false) (c : Chain)
+    (t : Table) (n : Nat) (h : declaredInFunc c n = true) : emitCallee g c t n = resolve c t n := by
   unfold emitCallee
-  simp [h, hg]
+  simp [h, isClosureVar_of_declaredInFunc c n h, hg]
+
+/-- a local of an enclosing function: it wins as soon as the guard refuses the direct call for closure
+variables -/
+theorem emitCallee_of_closureVar (g : Bool → Bool → Bool) (hg : g false true = false) (c : Chain)
+    (t : Table) (n : Nat) (hd : declaredInFunc c n = false) (hl : (resolveLocal c n).isSome = true) :
+    emitCallee g c t n = resolve c t n := by
+  unfold emitCallee
+  simp [hd, isClosureVar, hl, hg]
 
 end ScriggoV.Compose.Local
